@@ -12,7 +12,7 @@ EXTENDS SmtpServer, Json
 Trace == ndJsonDeserialize("trace.ndjson")
 
 TraceAlphabet == {"greet", "mail", "rcpt", "data", "bdat", "simple", "bad", "quit", "long",
-                  "panic", "auth", "starttls", "cut", "mid"}
+                  "panic", "auth", "starttls", "cut", "mid", "idle"}
 
 VARIABLE l     \* index of the next event to consume
 
